@@ -167,10 +167,13 @@ def run_e2e(ctx):
                 for i, fr in enumerate(frs):
                     op = 1 if i == 0 else 0
                     stream += simnet.srv_frame(op, fr, fin=1 if i == len(frs) - 1 else 0)
-                for api in ("recv", "recv_data", "recv_data+trace"):
+                for api in ("recv", "recv_data", "recv_data+trace", "recv_data+factory"):
                     if api == "recv_data+trace" and len(frs) < 2:
                         continue
-                    ws, sock = simnet.make_ws([("chunk", stream)], skip_utf8_validation=skip, mask_key=b"abcd")
+                    # (fourth variant: the object comes from create_connection(); validation that is not switched off is
+                    #  LEFT OUT of the call — whether the text is judged must not depend on how the object was made)
+                    mk = simnet.make_ws_factory if api.endswith("+factory") else simnet.make_ws
+                    ws, sock = mk([("chunk", stream)], skip_utf8_validation=skip, mask_key=b"abcd")
                     try:
                         # (tracing on for the third variant: the trace lines render every FRAME, the judgement is on the MESSAGE)
                         with session.tracing(api.endswith("+trace")):
@@ -233,6 +236,32 @@ def run_e2e(ctx):
                         ctx.violate("text-delivered-iff-wellformed", "ill-formed-delivered-after-earlier-exceptions", 
                                     {"op": f"{first_api}() x3 (time-out, rejected text FF, time-out), then {later_api}() on the ill-formed text",
                                      "payload": p.hex()}, ["TIMEOUT", "PAYLOAD", "TIMEOUT", "PAYLOAD"], hist, size=len(p) + 4)
+        # the judgement is on THIS connection's message: another connection of the same process receives a text message
+        # (complete, or the start of one) between two fragments of this one
+        if len(p) >= 2:
+            for cut in sorted({1, len(p) // 2, len(p) - 1}):
+                for other in (simnet.srv_frame(1, b"ok"), simnet.srv_frame(1, b"\xe2\x82", fin=0), simnet.srv_frame(1, b"x", fin=0)):
+                    a, asock = simnet.make_ws([("chunk", simnet.srv_frame(1, p[:cut], fin=0)), ("timeout",),
+                                               ("chunk", simnet.srv_frame(0, p[cut:]))], mask_key=b"abcd")
+                    asock.timeout = 0.5
+                    b, bsock = simnet.make_ws([("chunk", other)], tail="timeout", mask_key=b"abcd")
+                    bsock.timeout = 0.5
+                    hist = []
+                    for obj in (a, b, a):
+                        try:
+                            r = obj.recv_data()
+                            hist.append(("ret", r[0], bytes(r[1]).hex()))
+                        except Exception as e:  # noqa
+                            hist.append(common.canon_exc(e))
+                    ctx.case(key=("two-connections", p, cut, other), nontrivial=True, cls=f"e2e:two-connections-interleaved:wf={int(wf)}")
+                    want_b = ("ret", 1, b"ok".hex()) if other == simnet.srv_frame(1, b"ok") else "TIMEOUT"
+                    ok_a = (hist[2] == ("ret", 1, p.hex())) if wf else (hist[2] in ("PAYLOAD", "PROTO"))
+                    if hist[0] != "TIMEOUT" or hist[1] != want_b or not ok_a:
+                        ctx.violate("text-delivered-iff-wellformed",
+                                    ("well-formed-not-delivered" if wf else "ill-formed-delivered") + "-when-another-connection-receives-in-between",
+                                    {"op": "A: first fragment, time-out; B: a text frame; A: the final fragment", "payload": p.hex(), "cut": cut,
+                                     "other_connection_receives": other.hex()},
+                                    ["TIMEOUT", want_b, ("ret", 1, p.hex()) if wf else "PAYLOAD"], hist, size=len(p) + 3)
         # "nothing is delivered": after a rejected message the NEXT message is judged and delivered on its own
         if not wf:
             nxt = "n\u00e4chste".encode()
